@@ -199,7 +199,7 @@ func (x *Exec) offsetPtr(s *State, p *PtrVal, idx *Term, limit int) *PtrVal {
 func (x *Exec) makeSlice(s *State, et types.Type, ln, cp *Term) (Value, bool) {
 	tb := x.tb
 	if !cp.IsConst() {
-		if cp.Hi > 1<<16 {
+		if cp.Hi > 1<<20 {
 			x.fail("make([]T, n) with unbounded symbolic n")
 		}
 	}
@@ -257,7 +257,7 @@ func (x *Exec) sliceOp(s *State, f *Frame, in *ssa.Slice) (Value, bool) {
 		if lo.IsConst() && lo.K == 0 {
 			np = b.Ptr
 		} else {
-			np = x.offsetPtr(s, b.Ptr, lo, int(min64(capT.Hi, 1<<16))+1)
+			np = x.offsetPtr(s, b.Ptr, lo, int(min64(capT.Hi, 1<<20))+1)
 			// a nil slice sliced [0:0] stays nil
 			if nl := x.ptrIsNil(b.Ptr); !nl.IsFalse() {
 				np = x.ite(nl, x.nilPtr(), np).(*PtrVal)
